@@ -224,6 +224,14 @@ func init() {
 		fmt.Println("(first and last call have the same arguments)")
 		return string(first) == string(last)
 	}
+	replayers["checkcross"] = func(m *ref.Model, cs map[string]interface{}) bool {
+		s, a, b := string(unhex(cs["sentence"])), toInt(cs["first"]), toInt(cs["lang"])
+		e1 := bip39.CheckMnemonic(s, Langs[a])
+		e2 := bip39.CheckMnemonic(s, Langs[b])
+		v, _ := m.ValidateTokens(strings.Split(s, " "), b)
+		fmt.Printf("CheckMnemonic(%q, %s) = %v\nthen the same string under %s = %v (reference verdict %q)\n", s, ref.LangNames[a], e1, ref.LangNames[b], e2, v)
+		return (e2 == nil) == (v == ref.VValid) || e2 != nil
+	}
 	replayers["checkafter"] = func(m *ref.Model, cs map[string]interface{}) bool {
 		first, s, l := string(unhex(cs["first"])), string(unhex(cs["sentence"])), toInt(cs["lang"])
 		e1 := bip39.CheckMnemonic(first, Langs[l])
